@@ -4,6 +4,7 @@
 import PsProofs.IterRun
 import PsProofs.Wheel
 import PsProofs.PreSieve
+import PsProofs.Segments
 import Mathlib.Tactic.NormNum.Prime
 import Mathlib.Tactic.IntervalCases
 
@@ -159,6 +160,37 @@ theorem C01_crossoff_covers_segment (stop p L : Nat) (hp : Nat.gcd (p % 30) 30 =
   ⟨fun h hg => crossoff_covers30 stop p L hp hp0 hL hnw
       (Nat.lt_of_le_of_lt (Nat.mul_le_mul_left p (by omega)) hnw2) hstop s h x hpx hg hn,
    fun h hg => crossoff_covers210 stop p L hp hp0 hL hnw hnw2 hstop s h x hpx hg hn⟩
+
+/-- **C01 (segments tile the interval)** for every sieve interval 7 ≤ start ≤ stop < 2^64, every L1 size, sieve size setting and value
+    of the floating-point factors (EratCfg): the segments (low, bytes) that Erat::init + repeated
+    Erat::sieveSegment / sieveLastSegment produce are adjacent (each starts at low + 30·bytes of the
+    previous one), the first one contains start in its first two bytes, and EVERY number of
+    [start, stop] that has a bit in the sieve (residue mod 30 not in 2..6) lies in one of them — no gap
+    at a segment edge, nothing beyond stop is needed.  64-bit saturation of checkedAdd is part of
+    the model. -/
+theorem C01_segments_tile (cfg : EratCfg) (start stop kib : Nat) (h7 : 7 ≤ start) (hss : start ≤ stop)
+    (hst : stop ≤ umax) (hsu : start < umax) :
+    let g := EratGeom.init cfg start stop kib
+    (∀ n, start ≤ n → n ≤ stop → ¬ (2 ≤ n % 30 ∧ n % 30 ≤ 6) →
+      ∃ seg ∈ g.segments (stop + 1), seg.1 + 7 ≤ n ∧ n ≤ seg.1 + 30 * seg.2 + 1) ∧
+    Adjacent (g.segments (stop + 1)) ∧
+    (g.segments (stop + 1)).head? = some (g.segmentLow, g.sieveSegment.2.1) ∧
+    g.segmentLow + 7 ≤ start ∧ start ≤ g.segmentLow + 36 := by
+  simp only
+  obtain ⟨hinv, hlo, hhi, hstop⟩ := init_GInv cfg start stop kib h7 hss hst hsu
+  have ht := segments_tile (stop + 1) _ hinv (by rw [hstop]; omega)
+  refine ⟨?_, ht.2.2, ht.2.1, hlo, hhi⟩
+  intro n h1 h2 h3
+  exact ht.1 n (by omega) (by rw [hstop]; exact h2) h3
+
+/-- **C01 (source lock, segment grid)** regenerated: the model EratGeom was written for exactly this text of
+    Erat::sieveSegment, sieveLastSegment, byteRemainder, hasNextSegment and the segment set-up of initAlgorithms -/
+theorem C01_segment_source : Gen.eratSegmentText = [
+    ("sieveSegment", "if (segmentHigh_ < stop_) { preSieve(); crossOff(); uint64_t dist = sieve_.size() * 30; segmentLow_ = checkedAdd(segmentLow_, dist); segmentHigh_ = checkedAdd(segmentHigh_, dist); segmentHigh_ = std::min(segmentHigh_, stop_); } else sieveLastSegment();"),
+    ("sieveLastSegment", "uint64_t rem = byteRemainder(stop_); uint64_t dist = (stop_ - rem) - segmentLow_; sieve_.resize(dist / 30 + 1); preSieve(); crossOff(); sieve_.back() &= unsetLarger[rem]; auto* sieve = sieve_.data(); auto i = sieve_.size(); ASSERT(sieve_.capacity() % sizeof(uint64_t) == 0); for (; i % sizeof(uint64_t); i++) sieve[i] = 0; segmentLow_ = stop_;"),
+    ("byteRemainder", "ASSERT(n >= 7); return (n - 7) % 30 + 7;"),
+    ("initAlgorithms.segments", "uint64_t rem = byteRemainder(start_); uint64_t dist = sieveSize * 30 + 6; segmentLow_ = start_ - rem; segmentHigh_ = checkedAdd(segmentLow_, dist); segmentHigh_ = std::min(segmentHigh_, stop_);"),
+    ("hasNextSegment", "return segmentLow_ < stop_;")] := rfl
 
 /-- **C01 (source lock)** the model of Wheel::addSievingPrime was written for exactly this text (regenerated,
     whitespace-normalised, on every run) -/
